@@ -119,6 +119,13 @@ struct Queue {
 };
 void jitter(vh::Rng& r) { unsigned k = r.pick(8); if (k == 0) sched_yield(); else if (k == 1) { struct timespec ts = {0, (long)r.pick(20000)}; nanosleep(&ts, nullptr); } }
 
+// A user-side thread_local container of vectors, constructed (empty) before the thread first uses the
+// library and filled later: its vectors are destroyed at thread exit AFTER the library's own per-thread
+// objects, i.e. the last releases of a thread happen while the thread is already being torn down.
+thread_local std::vector<SU_vector> tls_pool;
+void tls_pool_begin() { tls_pool.reserve(8); }
+void tls_pool_end(uint64_t seed) { vh::Rng r(seed, 18, 9); for (int i = 0; i < 5; i++) tls_pool.emplace_back(rand_vec(r, 2 + r.pick(5))); }
+
 bool same_bits(const Vec& a, const Vec& b) { return a.size() == b.size() && (a.empty() || memcmp(a.data(), b.data(), a.size() * 8) == 0); }
 }  // namespace
 
@@ -154,8 +161,8 @@ int main(int argc, char** argv) {
     std::atomic<long> handed{0}, consumed{0};
     std::atomic<int> go{0};
     auto wait_go = [&] { while (!go.load()) sched_yield(); };
-    for (int i = 0; i < nA; i++) th.emplace_back([&, i] { wait_go(); gotA[i] = algebra_program(seedA[i], nops); });
-    for (int i = 0; i < nC; i++) th.emplace_back([&, i] { wait_go(); gotC[i] = query_program(S1, S2, seedC[i], nq); });
+    for (int i = 0; i < nA; i++) th.emplace_back([&, i] { tls_pool_begin(); wait_go(); gotA[i] = algebra_program(seedA[i], nops); tls_pool_end(seedA[i]); });
+    for (int i = 0; i < nC; i++) th.emplace_back([&, i] { tls_pool_begin(); wait_go(); gotC[i] = query_program(S1, S2, seedC[i], nq); tls_pool_end(seedC[i]); });
     std::vector<std::unique_ptr<Queue>> qs;
     std::vector<double> sums(nP, 0.0), wantsums(nP, 0.0);
     for (int i = 0; i < nP; i++) {
@@ -190,7 +197,7 @@ int main(int argc, char** argv) {
     }
     th.emplace_back([&] {  // churn: threads that start, work and exit
       wait_go();
-      for (int i = 0; i < nChurn; i++) { std::thread t([&, i] { gotCh[i] = algebra_program(seedCh[i], 25); }); t.join(); }
+      for (int i = 0; i < nChurn; i++) { std::thread t([&, i] { tls_pool_begin(); gotCh[i] = algebra_program(seedCh[i], 25); tls_pool_end(seedCh[i]); }); t.join(); }
     });
     go = 1;
     for (auto& t : th) t.join();
